@@ -691,6 +691,13 @@ pub struct WriteConn {
     _permit: OwnedSemaphorePermit,
 }
 
+impl WriteConn {
+    /// Closes this connection instead of handing it back to the pool, the next writer gets a fresh one.
+    pub fn discard(self) {
+        drop(sqlite_pool::Connection::take(self.conn));
+    }
+}
+
 impl Deref for WriteConn {
     type Target = sqlite_pool::Connection<CrConn>;
 
